@@ -6,5 +6,6 @@ INVARIANT AssignExact
 INVARIANT RawEqualsFold
 INVARIANT NoZeroCommodity
 INVARIANT CanonicalOnly
+INVARIANT LookupCanonical
 POSTCONDITION TraceAccepted
 CHECK_DEADLOCK FALSE
